@@ -175,8 +175,8 @@ YOUTUBE_DOMAINS = [
 YOUTUBE_VIDEO_ID_RE = re.compile(r"^[a-zA-Z0-9_-]{11}$")
 YOUTUBE_CHANNEL_ID_RE = re.compile(r"^UC[a-zA-Z0-9_-]{22}$")
 QUERY_V_RE = re.compile(QUERY_VALUE_TEMPLATE % r"v", re.I)
-NEXT_V_RE = re.compile(r"next=%2Fwatch%3Fv%3D([^%&]+)", re.I)
-NESTED_NEXT_V_RE = re.compile(r"next%3D%252Fwatch%253Fv%253D([^%&]+)", re.I)
+NEXT_V_RE = re.compile(r"next=%2Fwatch%3Fv%3D([^%&#]+)", re.I)
+NESTED_NEXT_V_RE = re.compile(r"next%3D%252Fwatch%253Fv%253D([^%&#]+)", re.I)
 FRAGMENT_V_RE = re.compile(
     r"^(?:%2F|/)watch(?:%3F|\?)v(?:%3D|=)([a-zA-Z0-9_-]{11})", re.I
 )
@@ -269,7 +269,15 @@ def parse_youtube_url(url, fix_common_mistakes=True):
     list_query = mlist_query.group(1) if mlist_query else None
 
     if m:
-        return YoutubeVideo(id=m.group(1), playlist=list_query)
+        v = m.group(1)
+
+        if fix_common_mistakes:
+            v = v[:11]
+
+        if not is_youtube_video_id(v):
+            return
+
+        return YoutubeVideo(id=v, playlist=list_query)
 
     # Parsing
     try:
